@@ -11,7 +11,7 @@ from vlib.core import Sub, req, sut
 
 PROPERTY = "C19"
 RULE = ("two alignment sets over a small key space (query ids 1-4 x reference ids 1-3, so keys collide and repeat), pair lists of "
-        "0-150 pairs (<200: difflib's autojunk heuristic stays off) with duplicated query labels, the second set partly derived "
+        "0-150 pairs (<200: difflib's autojunk heuristic stays off) with duplicated query labels, duplicated reference labels and repeated identical pairs, the second set partly derived "
         "from the first (copies, subsets, perturbations), both combineMultipleQuerySources values.  non-trivial = both sets "
         "non-empty with >=1 shared and >=1 exclusive key; distinct = distinct case")
 ASSUMPTIONS = ["pair lists shorter than 200 elements (difflib.SequenceMatcher autojunk is asymmetric by design above that)",
@@ -94,6 +94,8 @@ def check(case):
         cl.append("key-twice-in-one-set")
     if any(not a["pairs"] for a in A + B):
         cl.append("empty-alignment")
+    if any(len({tuple(x) for x in a["pairs"]}) < len(a["pairs"]) for a in A + B):
+        cl.append("repeated-identical-pair")
     return {"nontrivial": nt, "classes": cl}
 
 
@@ -104,7 +106,7 @@ def pairs_st(draw):
     out = []
     for _ in range(n):
         out.append([r, q])
-        step = draw(st.sampled_from([(1, 1), (1, 1), (1, 1), (2, 1), (1, 2), (1, 0), (3, 2)]))
+        step = draw(st.sampled_from([(1, 1), (1, 1), (1, 1), (2, 1), (1, 2), (1, 0), (3, 2), (0, 0), (0, 1)]))
         r += step[0]
         q += step[1]
     return out
@@ -145,4 +147,4 @@ def strategy(draw):
 def subchecks(tier):
     q = tier == "quick"
     return [Sub("laws", "hyp", check, strategy=strategy, examples=24000 if q else 600000, shrink_budget=800,
-                required_classes=("duplicated-query-label", "key-twice-in-one-set", "empty-alignment", "combine"))]
+                required_classes=("duplicated-query-label", "key-twice-in-one-set", "empty-alignment", "combine", "repeated-identical-pair"))]
